@@ -117,6 +117,8 @@ func (w *originWorld) Observe(st Step) map[string]string {
 		ov := w.ovar(st.Str("p"))
 		if p := onBigStack(func() { r = (*ov)(a) }); p != "" {
 			out["res"] = p
+		} else if r >= 3000+1000 && r < 3000+4000 {
+			out["res"] = "reentered:" + whose(r-3000, a) // the placeholder's stack check sent it back into the mock (F5)
 		} else {
 			out["res"] = "orig:" + whose(r, a)
 		}
